@@ -35,7 +35,7 @@ import copy, json, os, re, sys
 sys.path.insert(0, os.path.dirname(os.path.dirname(os.path.abspath(__file__))))
 from vlib import common
 from vlib.rtc import eng, explore, gen
-from checks import C08
+from checks import C02, C08
 
 ALL_SEEDS = ("basic", "refs", "lookup", "summary", "twoway", "trigger", "choices", "prevnext")
 MODES = ("before", "after", "in_method", "in_rebuild#1", "in_rebuild#2")
@@ -157,28 +157,65 @@ def exc_sig(ex):
   return "%s(%s)" % (type(ex).__name__, msg[:70])
 
 
+def snapshot(e):
+  """Every table (metadata included), formulas included, as Node sees it: fetch_table +
+  encode_object, JSON numbers compared by value (1 == 1.0, as objtypes.equal_encoding does)."""
+  return C02.engine_snapshot(e)
+
+
+def formula_columns(e):
+  return {(tid, cid) for tid, t in e.schema.items() for cid, c in t.columns.items() if c.isFormula}
+
+
+def diff_kind(e, a, b):
+  """'unchanged' | 'only formula cells differ' | 'data or metadata differ'"""
+  cells = C02.changed_cells(a, b)
+  if not cells: return "unchanged"
+  fc = formula_columns(e)
+  if all(len(c) == 3 and c[1] not in ("*row", "*col") and (c[0], c[2]) in fc for c in cells):
+    return "only formula cells differ"
+  return "data or metadata differ"
+
+
 def failure_clauses(e, pre, label):
   """The exceptional postcondition, evaluated on engine `e` right after apply_user_actions raised.
   -> (violations, repaired): `repaired` tells whether the document is back to `pre` afterwards (so
-  that exploration may go on with this engine)."""
+  that exploration may go on with this engine).  Every violation carries the whole symptom
+  signature (used to name the failure class)."""
   out = []
-  d = eng.diff_snapshots(pre, eng.snapshot(e))
+  now = snapshot(e)
+  sig = {"after_rollback": diff_kind(e, pre, now)}
+  d = eng.diff_snapshots(pre, now)
   if d:
     out.append(("C04.state_unchanged", dict(label, diff=d)))
   sc = C08.schema_clauses(e)
+  sig["schema"] = "consistent" if not sc else "INCONSISTENT"
   if sc:
     out.append(("C04.schema_consistent", dict(label, schema=[(c, dd) for c, dd in sc][:2])))
   try:
     g = eng.apply(e, [["Calculate"]])
     if g.stored:
-      out.append(("C04.engine_usable", dict(label, calculate_stored=eng.stored_reprs(g)[:6])))
+      stored = eng.stored_reprs(g)
+      fc = formula_columns(e)
+      only_formula = all(a[0] in ("UpdateRecord", "BulkUpdateRecord") and
+                         all((a[1], c) in fc for c in a[3]) for a in stored)
+      sig["calculate"] = "rewrites formula cells" if only_formula else \
+          "emits " + "+".join(sorted(set(a[0] for a in stored)))
+      out.append(("C04.engine_usable", dict(label, calculate_stored=stored[:6])))
+    else:
+      sig["calculate"] = "silent"
   except Exception as ex:
+    sig["calculate"] = "raises " + exc_sig(ex)
     out.append(("C04.engine_usable", dict(label, calculate_raised=exc_sig(ex))))
     try:
       eng.apply(e, [["Calculate"]])
     except Exception as ex2:
       out[-1][1]["calculate_raised_again"] = exc_sig(ex2)
-  repaired = not eng.diff_snapshots(pre, eng.snapshot(e)) and not C08.schema_clauses(e)
+  final = snapshot(e)
+  sig["finally"] = diff_kind(e, pre, final)
+  repaired = sig["finally"] == "unchanged" and not C08.schema_clauses(e)
+  for _, detail in out:
+    detail["signature"] = sig
   return out, repaired
 
 
@@ -235,17 +272,17 @@ class C04Monitor(explore.Monitor):
     stats["bundles"] += 1
     kinds = {t["tableId"]: ("summary" if t["summarySourceTable"] else "user")
              for t in eng.meta_records(e, "_grist_Tables")}
-    pre = st["pre"] = eng.snapshot(e)
+    pre = st["pre"] = snapshot(e)
     # -- dry run on the shadow engine ------------------------------------------------------------
     shadow = st["shadow"]
-    if eng.diff_snapshots(eng.snapshot(shadow), pre):
+    if eng.diff_snapshots(snapshot(shadow), pre):
       st["tainted"] = "shadow and monitored engine differ before the bundle"   # harness problem
       st["pending"] = [("C04.harness", {"error": st["tainted"]})]
       return
     g, ex, tr = run_traced(shadow, bundle)
     st["natural"] = {"raised": exc_sig(ex) if ex is not None else None,
                      "post_phase": tr.post and ex is not None,
-                     "snapshot": eng.snapshot(shadow),
+                     "snapshot": snapshot(shadow),
                      "stored": eng.stored_reprs(g) if g is not None else None,
                      "steps": [step_desc(kinds, s) for s in tr.steps]}
     stats["steps"] += len(tr.steps)
@@ -275,7 +312,7 @@ class C04Monitor(explore.Monitor):
           eng.apply(e, [["ApplyUndoActions", eng.undo_reprs(g2)]])
         except Exception:
           pass
-        if eng.diff_snapshots(pre, eng.snapshot(e)):
+        if eng.diff_snapshots(pre, snapshot(e)):
           st["tainted"] = "a swallowed fault could not be undone"; return
         continue
       stats["faults_propagated"] += 1
@@ -292,7 +329,7 @@ class C04Monitor(explore.Monitor):
                "step_action": step_desc(kinds, tr.steps[k - 1]),
                "phase": "after the user-action loop"}
       fork = self.fork(st)
-      if eng.diff_snapshots(pre, eng.snapshot(fork)):
+      if eng.diff_snapshots(pre, snapshot(fork)):
         continue                                  # replay did not reproduce the state: skip
       stats["faults"] += 1; stats["faults_on_fork"] += 1; stats["by_mode"][mode] += 1
       g2, ex2, tr2 = run_traced(fork, bundle, k, mode)
@@ -328,7 +365,7 @@ class C04Monitor(explore.Monitor):
       return [("C04.engine_usable", dict(label, problem="after the injected faults the bundle "
                "ends differently than on the shadow engine", shadow=nat["raised"], monitored=mine))]
     if exc is None:
-      d = eng.diff_snapshots(nat["snapshot"], eng.snapshot(e))
+      d = eng.diff_snapshots(nat["snapshot"], snapshot(e))
       if d:
         return [("C04.engine_usable", dict(label, problem="after the injected faults the bundle "
                  "gives a different document than on the shadow engine", diff=d))]
@@ -362,16 +399,29 @@ class C04Monitor(explore.Monitor):
     return True
 
   def classify(self, clause, detail, bundle, history):
-    if detail.get("fault") == "injected":
-      what = "fault %s %s [%s]" % (detail.get("mode"), detail.get("step_action"), detail.get("phase"))
-    else:
-      what = "natural %s [%s]" % (detail.get("raised"), detail.get("phase"))
-    sym = ""
-    if "calculate_raised" in detail: sym = " -> Calculate raises " + detail["calculate_raised"]
-    elif "calculate_stored" in detail:
-      sym = " -> Calculate emits " + "+".join(sorted(set(a[0] for a in detail["calculate_stored"])))
-    elif "problem" in detail: sym = " -> " + detail["problem"][:60]
-    return "%s: %s%s" % (clause, what, sym)
+    return classify(clause, detail)
+
+
+def classify(clause, detail):
+  """Root-cause class of a failure.  Three structural root causes are recognised by WHERE the fault
+  hit; everything else is named by fault family + symptom signature, so that the same root cause
+  met through another history maps to the same class while a different symptom does not."""
+  sig = detail.get("signature") or {}
+  injected = detail.get("fault") == "injected"
+  mode, action = detail.get("mode", ""), (detail.get("step_action") or "").split("(")[0]
+  if "problem" in detail:
+    return "%s: %s" % (clause, re.sub(r"\d+", "N", detail["problem"])[:90])
+  symptoms = "after rollback %s, schema %s, Calculate %s, finally %s" % (
+    sig.get("after_rollback"), sig.get("schema"), sig.get("calculate"), sig.get("finally"))
+  if detail.get("phase") == "after the user-action loop":
+    return "failure after the user-action loop is not rolled back (%s; schema %s)" % (
+      "injected" if injected else "natural " + str(detail.get("raised")), sig.get("schema"))
+  if injected and mode == "in_rebuild#2" and action == "ModifyColumn":
+    return "rebuild_usercode fails at ModifyColumn's second call: column data lost (%s)" % symptoms
+  if injected and mode == "in_rebuild#1" and action == "RemoveTable":
+    return "rebuild_usercode fails in RemoveTable: rollback aborted (%s)" % symptoms
+  family = ("injected " + mode) if injected else "natural"
+  return "%s: %s" % (family, symptoms)
 
 
 def stat_sink(stats):
